@@ -19,8 +19,10 @@ if [ "$MODE" = "--inrepo" ]; then git -C /repo apply $(pwd)/$S/patch.diff || exi
 echo "== demo on changed library"; PYTHONPATH=$R/src /venv/bin/python $S/demo.py 2>/dev/null | tail -2; B=${PIPESTATUS[0]}
 echo "demo exit: unchanged=$A changed=$B"
 echo "== ./check $P against the change"
+cp evidence/$P.json /var/tmp/evidence-$P.json.keep 2>/dev/null   # evidence must only ever come from runs on the unchanged tree
 if [ "$MODE" = "--inrepo" ]; then ./check $P --tier quick > /var/tmp/seedrun-$1.log 2>&1; C=$?; git -C /repo checkout -- .; else DV_REPO=$R ./check $P --tier quick > /var/tmp/seedrun-$1.log 2>&1; C=$?; rm -rf $R; fi
 grep -E "^VIOLATION|^KNOWN|^$P " /var/tmp/seedrun-$1.log | head -8
 echo "check exit=$C"
+if [ -f /var/tmp/evidence-$P.json.keep ]; then mv /var/tmp/evidence-$P.json.keep evidence/$P.json; fi
 # restore Gen from the real tree
 PYTHONPATH=/repo/src:py /venv/bin/python -m dv.py2coq >/dev/null 2>&1
